@@ -19,7 +19,7 @@ package patch
 //@ pure func ins_suffix(ins *x86asm.Inst) int = ins.Len - ins.PCRelOff - ins.PCRel
 
 //@ func fixIns
-//@   props C03
+//@   props C03 C16
 //@   requires shape: ins_shape(ins, block, pos) && len(block) < 0x100000 && arr(block) != textref && 0 <= blockSize && blockSize < 0x100000
 //@   requires table: bytecode.opexpand_wf()
 //@   assume inside_block: pos + ins.Len <= blockSize
